@@ -11,7 +11,7 @@ if [ -n "${MUT_TESTS:-}" ]; then
   /venv/bin/python -m pytest -q -p no:cacheprovider 2>&1 | tail -1
 fi
 cd /verif || exit 2
-PVM_REPO="$S" PVM_EVIDENCE=/dev/null ./check "$PROP" "$TIER" > "$S/out.txt" 2>&1
+PVM_REPO="$S" PVM_OUT="$S/pvm_out" PVM_EVIDENCE=/dev/null ./check "$PROP" "$TIER" > "$S/out.txt" 2>&1
 RC=$?
 grep -E "^VIOLATION|^KNOWN|^INCONC" "$S/out.txt" | head -${MUT_LINES:-3} | cut -c1-220
 tail -1 "$S/out.txt"
